@@ -298,7 +298,7 @@ def main():
 
 NA = {}
 HOOK_COMMITS = ["cb16685", "7053e9c", "17a7452"]
-FIX_COMMITS = ["3ba2124", "35e540e", "5d9c0a9", "182cdbb", "c177d40", "4cc9b5c", "e04537c", "f4cd737", "4b54f48", "54b79dc", "663fc64", "4477a51", "371b1d0", "3797c82", "1b93308", "e3c7411", "1dddabc"]
+FIX_COMMITS = ["3ba2124", "35e540e", "5d9c0a9", "182cdbb", "c177d40", "4cc9b5c", "e04537c", "f4cd737", "4b54f48", "54b79dc", "663fc64", "4477a51", "371b1d0", "3797c82", "1b93308", "e3c7411", "1dddabc", "31416d3"]
 ENGINES = [
     dict(name="TokenStream", path="specs/TokenStream.tla", serves_properties=["C09"],
          kind_free_text="TLA+ labelling of the JSON automaton's transitions with the tokens Decoder.Token returns; exported with the transition table"),
